@@ -55,27 +55,38 @@ def seq_gen(work, consts, seed, limit, depth=12, num=None, name="genseq"):
 
 
 def seqrun(work, binp, behs, engines, shards, flags, agree=False, name="seqrun", cmd="seqrun"):
+    """Runs a driver over the behaviours with `shards` processes at a time.
+
+    A driver process never gets rid of the backends it has created (their background goroutines do not end): measured 5.4 MB per
+    backend, 3.3-4 GB for a process that runs 125 histories on five engines, and sixteen of those are more than this machine has
+    (a thorough run of C03 was ended by the kernel's out-of-memory killer). So no process runs more than PER behaviours: the
+    work is cut into more pieces than there are workers and the pieces are run by a pool."""
+    import concurrent.futures
+    PER = 30
     d = work.sub(name)
     inp = os.path.join(d, "histories.ndjson")
     with open(inp, "w") as f:
         for b in behs:
             f.write(b + "\n")
-    procs = []
-    for i in range(shards):
+    pieces = max(shards, -(-len(behs) // PER))
+
+    def one(i):
         tr = os.path.join(d, "trace_%d.ndjson" % i)
         ag = os.path.join(d, "agree_%d.ndjson" % i)
         rp = os.path.join(d, "report_%d.json" % i)
-        lg = open(os.path.join(d, "log_%d.txt" % i), "w")
-        c = [binp, cmd, "-in", inp, "-out", tr, "-report", rp, "-engine", engines, "-shard", str(i), "-shards", str(shards)] + flags
+        lgp = os.path.join(d, "log_%d.txt" % i)
+        c = [binp, cmd, "-in", inp, "-out", tr, "-report", rp, "-engine", engines, "-shard", str(i), "-shards", str(pieces)] + flags
         if agree:
             c += ["-agree", ag]
-        procs.append((subprocess.Popen(["timeout", "1800"] + c, stdout=lg, stderr=subprocess.STDOUT, env=GOENV), tr, ag, rp, lg))
+        with open(lgp, "w") as lg:
+            rc = subprocess.call(["timeout", "1800"] + c, stdout=lg, stderr=subprocess.STDOUT, env=GOENV)
+        return rc, tr, ag, rp, lgp
+    with concurrent.futures.ThreadPoolExecutor(max_workers=shards) as ex:
+        results = list(ex.map(one, range(pieces)))
     reports, traces, agrees = [], [], []
-    for p, tr, ag, rp, lg in procs:
-        rc = p.wait()
-        lg.close()
+    for rc, tr, ag, rp, lgp in results:
         if rc != 0 or not os.path.exists(rp):
-            raise Undecided("sequential driver failed (rc=%s): %s" % (rc, open(lg.name, errors="replace").read()[-2000:]))
+            raise Undecided("sequential driver failed (rc=%s): %s" % (rc, open(lgp, errors="replace").read()[-2000:]))
         reports.append(json.load(open(rp)))
         traces.append(tr)
         agrees.append(ag)
